@@ -37,7 +37,9 @@ RULE = ("(a) seeded traces of 0-12 events (reports of the three severities with 
         "(word lists / operand lists continued after a comma, operand on the next line), share a line, or use legacy spellings, so that every warning "
         "kind of WARNING_CLASSES['all'] is displayed under both formats x (none, -Wall, -Wno-all, -Wdefault, each single name, -Wall -Wno-name); plus planted "
         "write faults (make_* path in a missing directory / a directory, before or after a good one; -o or listing target a directory or in a missing "
-        "directory; missing / directory source; unknown --charset), the only inputs on which the two known-finding signatures may be used. non-trivial = distinct (fault kinds, warning kinds, selector, -W list, format) with >= 1 planted fault or warning, "
+        "directory; missing / directory source; unknown --charset), the only inputs on which the two known-finding signatures may be used; plus an encoding "
+        "stream: programs whose diagnostics print non-ASCII or undecodable file names and quoted non-ASCII literals, under stdout encodings utf-8 / ascii / "
+        "latin-1 / C locale (with and without UTF-8 mode), each under both formats x -W selections. non-trivial = distinct (fault kinds, warning kinds, selector, -W list, format) with >= 1 planted fault or warning, "
         "or a distinct trace containing an error-severity report")
 LEVEL_TEXT = ("Coq theorems over decision functions regenerated from reports.py / _cli.py on every run (emit_report, handle_reports.__exit__, "
               "FilterHandler.__call__, the -W loop): a block is left by UnrecoverableError iff an error- or critical-severity report was executed "
@@ -368,7 +370,7 @@ BARE_RE = re.compile(r"^.*?:\d+:\d+: (Error|Warning): ")
 GRAPH_RE = re.compile(r"^\x1b\[(91mError|33mWarning)\x1b\[0m in .*\[-W([^\]]*)\]")
 
 
-def run_cli(d, files, adir, decoys, argv, timeout=60, hashseed=None):
+def run_cli(d, files, adir, decoys, argv, timeout=60, hashseed=None, osenv=None):
     """One run in a fresh directory d (created and removed here)."""
     shutil.rmtree(d, ignore_errors=True)
     make_dir(d, files, adir, decoys)
@@ -379,6 +381,11 @@ def run_cli(d, files, adir, decoys, argv, timeout=60, hashseed=None):
     env.setdefault("PYTHONHASHSEED", "0")
     if hashseed is not None:
         env["PYTHONHASHSEED"] = str(hashseed)
+    for k, v in (osenv or {}).items():          # stdout / locale encoding of the child (None = unset)
+        if v is None:
+            env.pop(k, None)
+        else:
+            env[k] = v
     status, out, err = -9, "", "TIMEOUT"
     for attempt_timeout in (timeout, 4 * timeout):       # a loaded machine must not look like a hang: retry once, longer
         try:
@@ -652,6 +659,70 @@ def known_signature(g, run, probs):
     return None
 
 
+# ---- the encoding dimension: what the diagnostics have to print (file names, quoted literals) x what stdout can encode
+def _fsname(b):
+    return os.fsdecode(b)
+
+
+ENC_NAMES = [b"a.mac", "прог.mac".encode("utf-8"), b"prog\xff.mac", "pröğ 文.mac".encode("utf-8"), b"\xfe\xffq.mac"]
+ENC_ENVS = [("utf-8", {"PYTHONIOENCODING": "utf-8"}),
+            ("ascii", {"PYTHONIOENCODING": "ascii"}),
+            ("latin-1", {"PYTHONIOENCODING": "latin-1"}),
+            ("C-locale", {"PYTHONIOENCODING": None, "LC_ALL": "C", "LANG": "C"}),
+            ("C-locale-no-utf8-mode", {"PYTHONIOENCODING": None, "LC_ALL": "C", "LANG": "C", "PYTHONUTF8": "0", "PYTHONCOERCECLOCALE": "0"})]
+# warning-raising statements whose diagnostic carries source text / sits in a non-ASCII line: (warning id, lines)
+ENC_WARN = [("excess-quote", ['.word "ЯБ"']), ("excess-quote", [".word 'ж'"]), ("implicit-operand", [".byte", ".even"]),
+            ("meta-typo", ["word 5 ; комментарий"]), ("missing-newline", ["nop nop ; два"]),
+            ("not-implemented", ['.title "заголовок €"']), ("not-implemented", [".title привет"]), ("suspicious-name", ["{insn}: nop ; имя"])]
+ENC_ERR = [['.ascii "€"', ".even"], [".word нет"], ['.error "ошибка"']]
+
+
+def jsafe(x):
+    """Strings with lone surrogates (undecodable file-name bytes) cannot be written as UTF-8 JSON: escape them."""
+    if isinstance(x, str):
+        return x.encode("utf-8", "surrogateescape").decode("utf-8", "backslashreplace")
+    if isinstance(x, dict):
+        return {jsafe(k): jsafe(v) for k, v in x.items()}
+    if isinstance(x, (list, tuple)):
+        return [jsafe(v) for v in x]
+    return x
+
+
+def hexs(x):
+    return os.fsencode(x).hex()
+
+
+def make_encoding_group(rng, ei, gi, wnames):
+    """A warning-only program (every fourth one: with an error) whose diagnostics must print non-ASCII / undecodable text, under one
+    stdout encoding; variants = both formats x -W selections.  Status, files and bytes must not depend on the format or on -W."""
+    name = _fsname(ENC_NAMES[ei % len(ENC_NAMES)])
+    ename, osenv = ENC_ENVS[(ei // len(ENC_NAMES) + ei) % len(ENC_ENVS)]
+    lines = gen_base(rng, "e")
+    picks = [ENC_WARN[(ei + j) % len(ENC_WARN)] for j in range(2)] + [rng.choice(ENC_WARN)]
+    wids = []
+    blocks = [[l] for l in lines]
+    susp = list(SUSPICIOUS)
+    rng.shuffle(susp)
+    for wid, wl in picks:
+        blocks.insert(rng.randrange(len(blocks) + 1), [x.replace("{insn}", susp.pop()) for x in wl] + ["nop"])
+        wids.append(wid)
+    kinds = []
+    if ei % 4 == 3:
+        blocks.insert(rng.randrange(len(blocks) + 1), ENC_ERR[(ei // 4) % len(ENC_ERR)])
+        kinds = ["non-ascii-error"]
+    lines = [l for b in blocks for l in b]
+    if ei % 3 == 2:
+        sel_argv, expected = ["--implicit-bin"], [name[:-4] + ".bin"]
+    else:
+        sel_argv, expected = ["-o", "out.bin"], ["out.bin"]
+    names = sorted(set(wids))
+    wsel = [[], ["all"], ["no-all"]] + [[w] for w in names[:2]] + [["all", "no-" + names[0]]]
+    variants = [("bare", [])] + [(fmt, ws) for ws in wsel for fmt in ("graphical", "bare") if (fmt, ws) != ("bare", [])]
+    return {"gi": gi, "files": {name: "\n".join(lines) + "\n"}, "adir": False, "decoys": [], "kinds": kinds, "wids": wids,
+            "sel": "encoding:" + ename, "lst": False, "sel_argv": sel_argv, "expected": expected, "variants": variants,
+            "slots": {"makes": [], "out": expected[0], "lst": None}, "osenv": osenv, "encoding": ename}
+
+
 def argv_of(g, fmt, ws):
     return ["--report-format", fmt] + w_argv(ws) + g["sel_argv"] + (g.get("sources") or sorted(g["files"]))
 
@@ -660,7 +731,7 @@ def run_group(g):
     runs = []
     for vi, (fmt, ws) in enumerate(g["variants"]):
         d = os.path.join(SCRATCH, "run", f"g{g['gi']}")     # same absolute path for every variant (the listing names it)
-        runs.append(run_cli(d, g["files"], g["adir"], g["decoys"], argv_of(g, fmt, ws)))
+        runs.append(run_cli(d, g["files"], g["adir"], g["decoys"], argv_of(g, fmt, ws), osenv=g.get("osenv")))
     return runs
 
 
@@ -688,7 +759,7 @@ def ascii_ok(s):
     return all(32 <= ord(c) < 127 for c in s)
 
 
-def cli_part(rep, rng, tier, ngroups, use_coq=True, nfamilies=0, ndisplay=0, nwritefaults=0):
+def cli_part(rep, rng, tier, ngroups, use_coq=True, nfamilies=0, ndisplay=0, nwritefaults=0, nencoding=0):
     wnames = all_warning_names()
     groups = [make_group(rng, gi, wnames, tier) for gi in range(ngroups)]
     for fi in range(nfamilies):
@@ -697,6 +768,11 @@ def cli_part(rep, rng, tier, ngroups, use_coq=True, nfamilies=0, ndisplay=0, nwr
         groups.append(make_display_group(rng, di, len(groups), wnames))
     for wi in range(nwritefaults):
         groups.append(make_writefault_group(rng, wi, len(groups), wnames))
+    for ei in range(nencoding):
+        groups.append(make_encoding_group(rng, ei, len(groups), wnames))
+    if nencoding:
+        rep.exhaustive_parts.append(f"encoding stream: {nencoding} programs whose diagnostics print non-ASCII / undecodable file names and quoted literals, "
+                                    f"stdout encodings {[e for e, _ in ENC_ENVS]}, file names {[jsafe(_fsname(n)) for n in ENC_NAMES]}, both formats x -W selections")
     with ThreadPoolExecutor(max_workers=C.NPROC) as ex:
         all_runs = list(ex.map(run_group, groups))
     family_ref = {}
@@ -743,6 +819,16 @@ def cli_part(rep, rng, tier, ngroups, use_coq=True, nfamilies=0, ndisplay=0, nwr
                    "reference_argv": argv_of(g, *g["variants"][0]), "faults": g["kinds"], "warnings": g["wids"]}
             if fam is not None:
                 inp["same_program_other_output_options"] = fam
+            if g.get("osenv"):
+                rep.count("encoding-run:" + g["encoding"])
+                # file names may hold bytes that are not UTF-8: keep them replayable (hex) and the JSON writable
+                inp = jsafe(inp)
+                inp["environment"] = g["osenv"]
+                inp["files_hex"] = [[hexs(n), t] for n, t in g["files"].items()]
+                inp["argv_hex"] = [hexs(a) for a in argv_of(g, fmt, ws)]
+                inp["reference_argv_hex"] = [hexs(a) for a in argv_of(g, *g["variants"][0])]
+                inp["expected_hex"] = [hexs(e) for e in g["expected"]]
+                run = dict(run, changed=run["changed"], stderr_tail=jsafe(run["stderr_tail"]), stdout_tail=jsafe(run["stdout_tail"]))
             if run["timeout"]:
                 rep.disagree("command-line run timed out (60 s and again 240 s)", inp)
                 continue
@@ -754,7 +840,7 @@ def cli_part(rep, rng, tier, ngroups, use_coq=True, nfamilies=0, ndisplay=0, nwr
             if not use_coq:
                 if probs:
                     rep.violate(known or ("cli:" + probs[0][:60] + ":" + ",".join(g["kinds"])[:60]), "; ".join(probs), inp,
-                                observed={k: run[k] for k in ("status", "changed", "removed", "shown", "internal", "stderr_tail")},
+                                observed=jsafe({k: run[k] for k in ("status", "changed", "removed", "shown", "internal", "stderr_tail")}),
                                 replay="python -m pdpy11 <argv> in a directory holding <files>")
                 continue
             if not all(ascii_ok(w) for w in ws) or not all(ascii_ok(i) for _, i, _ in full) or \
@@ -779,7 +865,7 @@ def cli_part(rep, rng, tier, ngroups, use_coq=True, nfamilies=0, ndisplay=0, nwr
         codes = C.run_case_files(ID + "cli", "Gen.GenReports Spec.ReportSpec Model.Reports Run.C07Run", "", C.shard(terms, 300), judge_expr="map judge_cli cases")
         flat = [c for sh in codes for c in sh]
         for (inp, run, probs, full, outcome, known), code in zip(meta, flat):
-            obs = {k: run[k] for k in ("status", "changed", "removed", "shown", "internal", "stderr_tail")}
+            obs = jsafe({k: run[k] for k in ("status", "changed", "removed", "shown", "internal", "stderr_tail")})
             if code & 1:
                 rep.disagree("CLI run: Model.Reports.cli_run (status, delivered reports) vs python -m pdpy11", inp,
                              model="see Run.C07Run.corr_cli", impl={**obs, "inprocess_diags": full, "inprocess_outcome": outcome})
@@ -1016,7 +1102,8 @@ def explore(rep, br, tier, seed):
         block_part(rep, rng, 400 if tier == "quick" else 4000)
         wargs_part(rep, rng, 150 if tier == "quick" else 1500)
         cli_part(rep, rng, tier, 126 if tier == "quick" else 700, nfamilies=4 if tier == "quick" else 14, ndisplay=8 if tier == "quick" else 40,
-                 nwritefaults=len(WRITE_FAULTS) if tier == "quick" else 4 * len(WRITE_FAULTS))
+                 nwritefaults=len(WRITE_FAULTS) if tier == "quick" else 4 * len(WRITE_FAULTS),
+                 nencoding=10 if tier == "quick" else 50)
     finally:
         cleanup()
 
@@ -1048,7 +1135,7 @@ def search(rep, br, tier, seed):
                             replay="props.c07.run_block(warning_control, swallow, trace)")
                 break
         if not rep.violations:
-            cli_part(rep, rng, tier, 60 if tier == "quick" else 300, use_coq=False, nfamilies=4, ndisplay=8, nwritefaults=len(WRITE_FAULTS))
+            cli_part(rep, rng, tier, 60 if tier == "quick" else 300, use_coq=False, nfamilies=4, ndisplay=8, nwritefaults=len(WRITE_FAULTS), nencoding=10)
     finally:
         cleanup()
 
@@ -1069,8 +1156,13 @@ def replay(data):
         return False
     try:
         d = os.path.join(SCRATCH, "run", "replay")
-        run = run_cli(d, inp["files"], inp["adir"], inp["decoys"], inp["argv"])
-        ref = run_cli(d, inp["files"], inp["adir"], inp["decoys"], inp["reference_argv"])
+        osenv = inp.get("environment")
+        if "files_hex" in inp:
+            unhex = lambda h: os.fsdecode(bytes.fromhex(h))
+            inp = dict(inp, files={unhex(n): t for n, t in inp["files_hex"]}, argv=[unhex(a) for a in inp["argv_hex"]],
+                       reference_argv=[unhex(a) for a in inp["reference_argv_hex"]], expected=[unhex(e) for e in inp["expected_hex"]])
+        run = run_cli(d, inp["files"], inp["adir"], inp["decoys"], inp["argv"], osenv=osenv)
+        ref = run_cli(d, inp["files"], inp["adir"], inp["decoys"], inp["reference_argv"], osenv=osenv)
         same = run["status"] == ref["status"] and run["changed"] == ref["changed"] and run["contents"] == ref["contents"]
         fam = inp.get("same_program_other_output_options")
         if fam:
@@ -1078,7 +1170,7 @@ def replay(data):
             print("same program, other output options:", fam["argv"], "status:", frun["status"])
             same = same and frun["status"] == run["status"]
         probs = python_oracle(run, inp["expected"], same)
-        print("argv:", inp["argv"], "status:", run["status"], "written:", run["changed"], "shown:", run["shown"])
+        print("argv:", jsafe(inp["argv"]), "status:", run["status"], "written:", jsafe(run["changed"]), "shown:", run["shown"])
         print("problems:", probs)
         return not probs
     finally:
